@@ -1149,7 +1149,10 @@ def _is_enclosed_or_line(
             lns = set(lns)
 
             for i in range(ln, end_ln):  # set any line that follows a line continuation `\` as a continuation (not normally set by _multiline_str_* functions)
-                if lines[i].endswith('\\'):  # this is fine whether it is part of string or not
+                if (l := lines[i]).endswith('\\'):  # this is fine whether it is part of string or not
+                    if i + 1 not in lns and '#' in l[max(l.rfind('"'), l.rfind("'")) + 1:]:  # unless it is the end of a comment after a string part, then it is not a line continuation
+                        continue
+
                     lns.add(i + 1)
 
             if (ret := len(lns) == end_ln - ln) or out_lns is None:
